@@ -51,6 +51,10 @@ func reasonClass(err error) string {
 		return "range"
 	case strings.Contains(m, "keyper index") && strings.Contains(m, "out of range"):
 		return "subset"
+	case strings.Contains(m, "no keyper set found") || strings.Contains(m, "failed to get keyper set"):
+		return "noset"
+	case strings.Contains(m, "no eon key found"):
+		return "nokey"
 	case strings.Contains(m, "failed to check"):
 		return "sigerr"
 	case strings.Contains(m, "signature invalid"):
@@ -116,8 +120,8 @@ type Targets struct {
 func RunCase(u *Universe, c *Case, tg Targets, kp *KeyperEnv) Line {
 	line := Line{C: *c, U: u.ID, Obs: []Obs{}}
 	msg := u.Message(c)
-	ks := u.KeyperSet(c, msg.Eon, c.LastAnn())
-	if tg.Fn {
+	if tg.Fn && c.LastAnn() != "" { // the bare functions are only ever called with the eon's keyper set
+		ks := u.KeyperSet(c, msg.Eon, c.LastAnn())
 		line.Obs = append(line.Obs, guarded("fn", func() (pubsub.ValidationResult, error) {
 			if c.F == "gnosis" {
 				return gnosis.ValidateDecryptionKeysSignatures(msg, msg.Extra.(*p2pmsg.DecryptionKeys_Gnosis).Gnosis, ks)
@@ -128,12 +132,23 @@ func RunCase(u *Universe, c *Case, tg Targets, kp *KeyperEnv) Line {
 	if tg.Access && c.F == "gnosis" && u.eon != nil {
 		cfg := &gnosisaccessnode.Config{InstanceID: msg.InstanceId, MaxNumKeysPerMessage: 500}
 		st := gnosisaccessnode.NewStorage()
-		// the long-lived Storage is told the announcement history of the eon, oldest first
-		for _, e := range u.Eons() {
-			st.AddEonKey(e, u.EonPublicKey())
-			for _, kind := range c.Ann {
-				st.AddKeyperSet(e, u.KeyperSet(c, e, kind))
+		// the long-lived Storage is brought into the storage state of the case: eon key stored
+		// before / after the keyper set announcements or not at all; announcements oldest first,
+		// "O" for the universe's other eon
+		other := u.OtherEon(msg.Eon)
+		if c.Key == "before" {
+			st.AddEonKey(msg.Eon, u.EonPublicKey())
+		}
+		st.AddEonKey(other, u.EonPublicKey())
+		for _, kind := range c.Ann {
+			if kind == "O" {
+				st.AddKeyperSet(other, u.KeyperSet(c, other, "S"))
+			} else {
+				st.AddKeyperSet(msg.Eon, u.KeyperSet(c, msg.Eon, kind))
 			}
+		}
+		if c.Key == "after" {
+			st.AddEonKey(msg.Eon, u.EonPublicKey())
 		}
 		h := gnosisaccessnode.NewDecryptionKeysHandler(cfg, st)
 		line.Obs = append(line.Obs, guarded("access", func() (pubsub.ValidationResult, error) {
